@@ -322,7 +322,7 @@ def gen(shard, rng, tier):
                 t = rng.choice(["5", "null", "true", "[]", "{}", "[1,2]"])
                 ov, x = {"data": t}, {"cls": "data-wrong-kind", "expect": "reject", "bucket": "reject-wrong-json-kind", "shown": t}
             elif k == 4:
-                n = rng.choice([0, 1, 19, 21, 32, 40])
+                n = rng.choice([0, 1, 19, 21, 32, 40, 276, 20 + 65536])
                 h = "0x" + rand_bytes(rng, n).hex()
                 ov, x = {"to": '"%s"' % h}, {"cls": "address-length", "expect": "reject", "bucket": "reject-address-length", "shown": h}
             elif k == 5:
@@ -345,7 +345,7 @@ def gen(shard, rng, tier):
                     tx["to"] = rand_bytes(rng, 20)
                     ov, x = {"to": '"0x0x%s"' % tx["to"].hex()}, {"cls": "address-double-prefix", "expect": "either", "shown": ""}
             elif k in (8, 9, 10) and tx["kind"] != reftx.LEGACY:
-                n = rng.choice([0, 1, 31, 33, 20, 64]) if k != 10 else 32
+                n = rng.choice([0, 1, 31, 33, 20, 64, 288, 32 + 65536]) if k != 10 else 32
                 key = rand_bytes(rng, n)
                 a = rand_bytes(rng, 20)
                 pos = rng.randrange(3)
@@ -360,7 +360,7 @@ def gen(shard, rng, tier):
                 else:
                     ov, x = {"accessList": al}, {"cls": "storage-key-length", "expect": "reject", "bucket": "reject-storage-key-length", "shown": al[:100]}
             elif k == 11 and tx["kind"] != reftx.LEGACY:
-                a = rand_bytes(rng, rng.choice([19, 21, 0, 32]))
+                a = rand_bytes(rng, rng.choice([19, 21, 0, 32, 276]))
                 al = '[["0x%s",[]]]' % a.hex()
                 ov, x = {"accessList": al}, {"cls": "access-list-address-length", "expect": "reject", "bucket": "reject-address-length", "shown": al}
             elif k == 12:
